@@ -12,7 +12,7 @@ import (
 // Field access can use either the struct field name or its JSON tag (if present).
 // Returns (value, true) if resolution succeeds, (nil, false) otherwise.
 func ResolveValue(v any, fieldName string) (any, bool) {
-	if v == nil || fieldName == "" {
+	if v == nil {
 		return nil, false
 	}
 
@@ -43,6 +43,10 @@ func resolveValueRecursive(rv reflect.Value, fieldName string) (any, bool) {
 
 // resolveStruct looks up a field by name or JSON tag.
 func resolveStruct(rv reflect.Value, fieldName string) (any, bool) {
+	if fieldName == "" {
+		// (the empty string is a valid map key, but never a field)
+		return nil, false
+	}
 	rt := rv.Type()
 
 	// Try field name first
